@@ -100,6 +100,7 @@ type State struct {
 	results     []Value
 	goals       map[*Term]bool // pc entries that are assumed proof goals (excluded from vacuity covers)
 	callLog     []string       // module functions called so far on this path (contract applications and inlined calls)
+	consumedAcc map[*Term]token.Pos // values that were the accumulator of a MulAcc on this path (see checkAccumulatorReuse)
 }
 
 func (s *State) top() *Frame { return s.stack[len(s.stack)-1] }
@@ -110,6 +111,12 @@ func (s *State) clone() *State {
 		n.heap[k] = v
 	}
 	n.pc = append([]*Term(nil), s.pc...)
+	if len(s.consumedAcc) > 0 {
+		n.consumedAcc = make(map[*Term]token.Pos, len(s.consumedAcc))
+		for k, v := range s.consumedAcc {
+			n.consumedAcc[k] = v
+		}
+	}
 	for _, f := range s.stack {
 		nf := *f
 		nf.env = make(map[ssa.Value]Value, len(f.env))
